@@ -9,6 +9,7 @@ import (
 	"crypto/x509/pkix"
 	"encoding/pem"
 	"fmt"
+	"io"
 	"math/big"
 	"net"
 	"os"
@@ -224,6 +225,11 @@ func (li *Listener) acceptLoop(ctx context.Context) {
 			}
 			buf := make([]byte, 1)
 			n, err := qs.Read(buf)
+			if n == 1 && err == io.EOF {
+				// the dialler closed its writing side right after the initial byte:
+				// the byte is there, the end of the stream is the application's to see
+				err = nil
+			}
 			if err != nil {
 				_ = qc.CloseWithError(500, fmt.Sprintf("Read Error: %s", err.Error()))
 				li.sendResult(ctx, nil, err)
